@@ -861,6 +861,10 @@ def d_range_index(s):
         u = ub_at(fc, s.bb, r[3][0])
         if u is not None and u <= int(ma.group(1)):
             return "D7 range end <= %d <= array length %s (bounded value / field invariant)" % (u, ma.group(1))
+    if ma and r[0] == "adt" and r[1].endswith("ops::Range") and len(r[3]) == 2:
+        a, b = E.strip_casts(r[3][0]), E.strip_casts(r[3][1])
+        if a[0] == "const" and b[0] == "const" and 0 <= a[1] <= b[1] <= int(ma.group(1)):
+            return "D7 constant range %d..%d inside an array of %s" % (a[1], b[1], ma.group(1))
     # precondition lifted to callers: base is (a deref of) parameter 1 and the bound is parameter 2
     if S_FX[0] is not None and r[0] == "adt" and r[1].endswith("ops::RangeFrom") and len(r[3]) == 1:
         amt = E.strip_casts(r[3][0])
